@@ -291,6 +291,7 @@ type world struct {
 	full     [][]*openfgav1.Tuple
 	serverCx context.Context
 	cancel   context.CancelFunc
+	keyOnly  bool // V2 cache: the rebuilt tuples carry no time stamp
 }
 
 func newWorld() (*world, error) {
@@ -323,7 +324,7 @@ func newWorld() (*world, error) {
 
 func (w *world) tok(f int, t *openfgav1.Tuple) string {
 	for i, u := range w.full[f] {
-		if proto.Equal(t, u) {
+		if proto.Equal(t, u) || (w.keyOnly && proto.Equal(t.GetKey(), u.GetKey())) {
 			return strconv.Itoa(i)
 		}
 	}
@@ -458,7 +459,7 @@ func (w *world) lens() string {
 	return "n=" + strings.Join(parts, ",")
 }
 
-func execHist(f []string, wait bool) string {
+func execHist(f []string, wait bool, v2 bool) string {
 	maxSize, _ := strconv.Atoi(f[1])
 	evs := parseEvents(f[2])
 	w, err := newWorld()
@@ -472,7 +473,11 @@ func execHist(f []string, wait bool) string {
 	defer cache.Stop()
 	var wg sync.WaitGroup
 	sf := &singleflight.Group{}
-	cds := storagewrappers.NewCachedDatastore(w.serverCx, w.sds, cache, maxSize, time.Hour, sf, &wg)
+	var cds storage.RelationshipTupleReader = storagewrappers.NewCachedDatastore(w.serverCx, w.sds, cache, maxSize, time.Hour, sf, &wg)
+	if v2 {
+		w.keyOnly = true
+		cds = storagewrappers.NewCachedTupleReader(w.serverCx, w.sds, cache, maxSize, time.Hour, sf, &wg, 5*time.Second)
+	}
 	var out []string
 	marker := func(future bool) *storage.InvalidEntityCacheEntry {
 		t := time.Now().Add(-time.Hour)
@@ -632,9 +637,13 @@ func exec(line string, st *hx.Stats) string {
 	f := strings.Fields(line)
 	switch f[0] {
 	case "h":
-		return execHist(f, true)
+		return execHist(f, true, false)
 	case "hr":
-		return execHist(f, false)
+		return execHist(f, false, false)
+	case "hv": // the V2 cache (CachedTupleReader / CachingIterator), waiting after every read
+		return execHist(f, true, true)
+	case "hvr": // V2, no waiting
+		return execHist(f, false, true)
 	case "hs":
 		return execStack(f)
 	case "as":
@@ -739,9 +748,17 @@ func gen(r *hx.Rand, n int, tier string, emit func(string), st *hx.Stats) {
 		case k < 15:
 			st.Inc("hs")
 			emit("hs " + genEvents(c, st, true, false))
-		case k < 18:
+		case k < 16:
 			st.Inc("hr")
 			emit(fmt.Sprintf("hr %d %s", 2+c.Intn(8), genEvents(c, st, true, false)))
+		case k < 18:
+			if c.Bool() {
+				st.Inc("hv")
+				emit(fmt.Sprintf("hv %d %s", 1+c.Intn(9), genEvents(c, st, true, false)))
+			} else {
+				st.Inc("hvr")
+				emit(fmt.Sprintf("hvr %d %s", 2+c.Intn(8), genEvents(c, st, true, false)))
+			}
 		default:
 			st.Inc("as")
 			f := c.Intn(numFilters)
